@@ -32,7 +32,8 @@ def tag(scn, v):
         # blind fall-back prompt commands (csh, zsh syntax) reached a shell that had accepted an earlier one?
         return 'reset=True/%s' % ('fallback_commands_queued' if v.detail.get('prompt_setting_commands_received', 0) >= 2 else 'direct')
     if v.clause == 'C17.silent_success':
-        return 'reset=False'
+        # without prompt reset nothing verifies the login: which weaker safeguard, if any, was in force?
+        return 'reset=False/sync=%s/echo=%s' % (bool(o.get('sync_original_prompt', True)), bool(v.detail.get('session_echo', True)))
     if v.clause == 'C17.exception_type' and v.site:
         return '%s.%s' % (v.site[0].replace('.py', ''), v.site[1])
     return 'reset=%s/sync=%s' % (o.get('auto_prompt_reset'), o.get('sync_original_prompt'))
